@@ -94,7 +94,7 @@ pub fn gen_case(prop: &str, seed: u64) -> Case {
             p.invalid_pct = 8;
             p.pk_first_only = false;
             p.key_first_projection = false;
-            p.pk_types = vec![Ty::Int, Ty::Int, Ty::BigInt, Ty::Varchar];
+            p.pk_types = vec![Ty::Int, Ty::Int, Ty::Int, Ty::BigInt, Ty::Varchar, Ty::SmallInt, Ty::Date, Ty::Decimal];
             let mut g = Gen::new(&mut wrng, p);
             case.steps = g.history();
         }
@@ -127,7 +127,7 @@ pub fn gen_case(prop: &str, seed: u64) -> Case {
             p.w_reopen = 3;
             p.w_drop = 0;
             p.pk_pct = 60;
-            p.pk_types = vec![Ty::Int, Ty::Int, Ty::BigInt, Ty::Varchar];
+            p.pk_types = vec![Ty::Int, Ty::Int, Ty::Int, Ty::BigInt, Ty::Varchar, Ty::SmallInt, Ty::Date, Ty::Decimal];
             p.pk_first_only = false;
             p.max_tables = 1 + krng.usize(3);
             if p.max_tables == 1 {
@@ -151,7 +151,7 @@ pub fn gen_case(prop: &str, seed: u64) -> Case {
             p.w_reopen = 3;
             p.w_drop = 0;
             p.pk_pct = 95;
-            p.pk_types = vec![Ty::Int, Ty::Int, Ty::BigInt, Ty::Varchar, Ty::Double];
+            p.pk_types = vec![Ty::Int, Ty::Int, Ty::Int, Ty::BigInt, Ty::Varchar, Ty::Double, Ty::SmallInt, Ty::Date, Ty::Decimal];
             p.pk_first_only = false;
             p.key_first_projection = false;
             if krng.chance(2, 3) {
